@@ -274,6 +274,18 @@ def run(chk):
         if not bp:
             continue
         ed = [p[0] for p in bp] + [bp[-1][1]]
+        if cls == "MS":
+            # a truncated bin set is a value: keeping it across later calls, or writing into it, changes nothing else
+            ms_ = [rng.uniform(ed[0], ed[-1]) for _ in range(4)]
+            kept = [mbins.turned_off_bins(m_) for m_ in ms_]
+            snap = [pairs_of(k_) for k_ in kept]
+            again = [pairs_of(mbins.turned_off_bins(m_)) for m_ in ms_]
+            kept[0].upper[:] = -1.0
+            after_write = pairs_of(mbins.turned_off_bins(ms_[1]))
+            now = [pairs_of(k_) for k_ in kept[1:]]
+            if snap != again or now != snap[1:] or after_write != snap[1] or pairs_of(mbins.bins.MS) != [tuple(p_) for p_ in bp]:
+                chk.fail("truncating at a turn-off mass changes only the upper edge of the bin containing it (results kept across calls stay valid)",
+                         dict(lay, mtos=ms_), dict(first_kept_now=now[0][:4], expected=snap[1][:4]))
         for _ in range(6):
             x = rng.choice(ed)
             m = rng.choice([x, float(np.nextafter(x, 0)), float(np.nextafter(x, 1e9)), x * rng.uniform(0.5, 1.5),
